@@ -251,3 +251,35 @@ func H_C16_topologies() {
 	}
 	sxReach("checked")
 }
+
+// H_C16_concurrent: two generator calls running at the same time do not disturb
+// each other (no shared scratch state): both results are valid, no data race.
+func H_C16_concurrent() {
+	gen := sxChoose("gen", 3)
+	n := 3 + sxChoose("ntips", sxParam("maxsize", 4)-2)
+	sxOpt("rr-sched", true)
+	sxOpt("race", true)
+	mk := func() (*tree.Tree, error) {
+		switch gen {
+		case 0:
+			return tree.RandomUniformBinaryTree(n, false)
+		case 1:
+			return tree.RandomYuleBinaryTree(n, false)
+		}
+		return tree.RandomCaterpillarBinaryTree(n, false)
+	}
+	done := make(chan bool)
+	var t1 *tree.Tree
+	var e1 error
+	go func() {
+		t1, e1 = mk()
+		done <- true
+	}()
+	t2, e2 := mk()
+	<-done
+	sxAssert(e1 == nil && e2 == nil, "both concurrent generator calls succeed")
+	sxReach("generated")
+	c16common(t1, n, false, "first of two concurrent calls")
+	c16common(t2, n, false, "second of two concurrent calls")
+	sxReach("checked")
+}
